@@ -494,6 +494,13 @@ def search(ck: Ck) -> None:
         ck.count('oracle_histories')
         cfg = case['cfg']
         ck.hist('oracle_cfg', f"{'dir' if cfg['dir'] else 'single'}/limit={cfg['limit']}")
+        # premise of c13_vpk_refines_map: the data values of the history (and b'') do not collide under CRC-32
+        vals = {b''} | {gen_data(*o[3]) for o in case['ops'] if o[0] in ('add', 'write')}
+        if len({zlib.crc32(v) for v in vals}) != len(vals):
+            ck.hist('refinement_premise', 'history with a CRC-32 collision')
+            ck.notes.append(f'history with a CRC-32 collision among its data values (outside the refinement theorem): {case!r}'[:400])
+        else:
+            ck.hist('refinement_premise', 'data values collision-free under CRC-32')
         sp = run_spec(case)
         for op, e in zip(case['ops'], sp):
             ck.hist('oracle_ops', op[0] + (':' + op[1] if op[0] == 'reopen' else ''))
